@@ -39,6 +39,8 @@ impl Join {
 
     pub fn trigger(&self) {
         self.state.store(false, Ordering::Release);
+        #[cfg(may_verif)]
+        may_queue::verif::point(may_queue::verif::site::JOIN_TRIGGER_STORED, self as *const _ as usize);
         if let Some(w) = self.to_wake.take() {
             w.unpark();
         }
@@ -49,6 +51,8 @@ impl Join {
             let cur = Blocker::current();
             // register the blocker first
             self.to_wake.store(cur.clone());
+            #[cfg(may_verif)]
+            may_queue::verif::point(may_queue::verif::site::JOIN_WAIT_REGISTERED, self as *const _ as usize);
             // re-check the state
             if self.state.load(Ordering::Acquire) {
                 // successfully register the blocker
